@@ -86,6 +86,7 @@ cat > "$STATS" <<EOF
  "wall_s": $((END-START)), "libfuzzer_exit": $RC, "unconfirmed_artifacts": $UNCONFIRMED, "findings": [$FINDINGS]}
 EOF
 rm -rf "$WORK"
+if [ "$EXECS" = 0 ]; then echo "fuzz.sh: campaign did not execute anything (see $LOG): inconclusive"; rm -f "$STATS"; exit 2; fi
 echo "fuzz.sh: $TARGET executions=$EXECS cov=$COV corpus=$NCORP wall=$((END-START))s findings=$(echo "$FINDINGS" | grep -c property) unconfirmed=$UNCONFIRMED"
 [ -n "$FINDINGS" ] && exit 1
 [ "$UNCONFIRMED" -gt 0 ] && exit 2
